@@ -17,7 +17,7 @@ import traceback
 
 ROOT = os.path.dirname(os.path.dirname(os.path.abspath(__file__)))
 NSHARDS = 16
-WATCHDOG_S = int(os.environ.get("PESTVERIF_WATCHDOG_S", "3300"))
+WATCHDOG_S = {"quick": 900, "thorough": 4 * 3600}
 MAX_SAMPLES = 12
 
 
@@ -120,13 +120,13 @@ def _shard_proc(conn, job) -> None:
         conn.close()
 
 
-def run_jobs(jobs: list, nproc: int) -> list:
+def run_jobs(jobs: list, nproc: int, tier: str = "quick") -> list:
     """Run shard jobs in non-daemonic forked processes (shards start their own workers)."""
     ctx = mp.get_context("fork")
     pending = list(enumerate(jobs))
     running: dict[int, tuple] = {}
     results: list = [None] * len(jobs)
-    deadline = time.time() + WATCHDOG_S
+    deadline = time.time() + int(os.environ.get("PESTVERIF_WATCHDOG_S", WATCHDOG_S.get(tier, 900)))
     try:
         while pending or running:
             while pending and len(running) < nproc:
@@ -268,7 +268,7 @@ def check(prop: str, tier: str) -> int:
     # 3. shards
     specs = mod.shards(tier)
     jobs = [(prop, tier, seed, i, len(specs), spec) for i, spec in enumerate(specs)]
-    results = run_jobs(jobs, min(len(jobs), int(os.environ.get("PESTVERIF_PROCS", "16"))))
+    results = run_jobs(jobs, min(len(jobs), int(os.environ.get("PESTVERIF_PROCS", "16"))), tier)
 
     evals = 0
     nt: set[int] = set()
